@@ -32,7 +32,10 @@ def teardown(_):
 def gen(rng, tier):
     n = 500 if tier == "quick" else 15000
     for t in range(n):
-        ns, nv = rng.randint(2, 12), rng.randint(1, 5)
+        ns, nv = rng.randint(2, 12), rng.choice([1, 2, 3, 4, 5, 5, 7, 9])
+        many_const = rng.random() < 0.08  # six or more requested variables that are constant in the cohort
+        if many_const:
+            nv = rng.choice([7, 9])
         repeats = rng.random() < 0.25
         big = rng.random() < 0.4
         data = []
@@ -45,13 +48,19 @@ def gen(rng, tier):
                 else:
                     row.append([rng.randint(0, 9), rng.randint(0, 9)] if repeats else [rng.randint(0, 1), rng.randint(0, 1)])
             data.append(row)
-        if rng.random() < 0.25:
-            j = rng.randrange(nv)
-            for r in data:
-                r[j] = list(data[0][j])  # constant dosage column (possibly heterozygous everywhere)
+        if rng.random() < 0.3:
+            # constant dosage columns (possibly heterozygous everywhere): one, or many (rare variants in a small cohort)
+            for j in rng.sample(range(nv), 1 if rng.random() < 0.6 else rng.randint(1, nv)):
+                for r in data:
+                    r[j] = list(data[0][j])
         k = rng.randint(1, nv)
+        if many_const:
+            for j in rng.sample(range(nv), rng.randint(6, nv)):
+                for r in data:
+                    r[j] = list(data[0][j])
+            k = nv
         eff_idx = rng.sample(range(nv), k)  # effects in an order that differs from the file order
-        yield {"data": data, "effects": [[f"v{j}", rng.choice(BETAS)] for j in eff_idx], "h2": rng.choice(H2), "env": rng.choice(ENV), "normalize": rng.random() < 0.7, "K": rng.choice(PREV), "R": rng.randint(1, 3), "tape_seed": rng.randrange(2**31)}
+        yield {"data": data, "effects": [[f"v{j}", rng.choice(BETAS)] for j in eff_idx], "h2": rng.choice(H2), "env": rng.choice(ENV), "normalize": True if many_const else rng.random() < 0.7, "K": rng.choice(PREV), "R": rng.randint(1, 3), "tape_seed": rng.randrange(2**31)}
 
 
 class FakeRng:
@@ -204,7 +213,14 @@ def gen_files(rng, tier):
         data = [[[rng.randint(0, 1), rng.randint(0, 1)] for _ in range(nv)] for _ in range(ns)]
         k = rng.randint(1, nv)
         idx = rng.sample(range(nv), k)
-        yield {"data": data, "effects": [[f"v{j}", rng.choice([0.1, 0.5, -0.25, 1.0, 0.3])] for j in idx], "extra_lines": rng.sample([j for j in range(nv) if j not in idx], rng.randint(0, nv - k)), "ids": rng.choice([None, None, "subset"]), "samples": rng.choice([None, None, "subset"]), "normalize": rng.random() < 0.6, "K": rng.choice([None, None, 0.3, 0.5]), "R": rng.randint(1, 3), "pgen": rng.random() < 0.3, "seed": rng.randrange(2**31)}
+        # zero noise either through --heritability 1 or, with neither heritability nor environment given, through
+        # sum beta^2 >= 1 (documented: the noise variance is 1 - sum beta^2 floored at 0); API or command line
+        h2mode = rng.choice(["one", "none_bigbeta"])
+        route = rng.choice(["api", "cli"])
+        effects = [[f"v{j}", rng.choice([0.1, 0.5, -0.25, 1.0, 0.3])] for j in idx]
+        if h2mode == "none_bigbeta":
+            effects[0][1] = rng.choice([1.0, -1.0, 1.5])
+        yield {"h2mode": h2mode, "route": route, "data": data, "effects": effects, "extra_lines": rng.sample([j for j in range(nv) if j not in idx], rng.randint(0, nv - k)), "ids": rng.choice([None, None, "subset"]), "samples": rng.choice([None, None, "subset"]), "normalize": rng.random() < 0.6, "K": rng.choice([None, None, 0.3, 0.5]), "R": rng.randint(1, 3), "pgen": rng.random() < 0.3, "seed": rng.randrange(2**31)}
 
 
 def impl_files(case):
@@ -237,7 +253,26 @@ def impl_files(case):
     want = None
     if case["samples"]:
         want = set(rnd.sample(samples, rnd.randint(2, ns)))
-    simulate_pt(gf, d / "e.snplist", num_replications=case["R"], heritability=1.0, prevalence=case["K"], normalize=case["normalize"], samples=want, haplotype_ids=ids, seed=case["seed"] % 2**32, output=d / "o.pheno", log=SD.silent_log())
+    h2 = 1.0 if case.get("h2mode", "one") == "one" else None
+    if case.get("route", "api") == "api":
+        simulate_pt(gf, d / "e.snplist", num_replications=case["R"], heritability=h2, prevalence=case["K"], normalize=case["normalize"], samples=want, haplotype_ids=ids, seed=case["seed"] % 2**32, output=d / "o.pheno", log=SD.silent_log())
+    else:
+        from click.testing import CliRunner
+        from haptools.__main__ import main
+
+        args = ["simphenotype", "--replications", str(case["R"]), "--seed", str(case["seed"] % 2**32), "--output", str(d / "o.pheno"), "--verbosity", "CRITICAL"]
+        if h2 is not None:
+            args += ["--heritability", str(h2)]
+        if case["K"] is not None:
+            args += ["--prevalence", str(case["K"])]
+        args.append("--normalize" if case["normalize"] else "--no-normalize")
+        for x in sorted(want or []):
+            args += ["--sample", x]
+        for x in sorted(ids or []):
+            args += ["--id", x]
+        r = CliRunner().invoke(main, args + [str(gf), str(d / "e.snplist")], catch_exceptions=True)
+        if r.exit_code != 0:
+            return {"error": "cli_exit", "msg": (repr(r.exception) + r.output)[-300:]}
     p = Phenotypes(d / "o.pheno", log=SD.silent_log())
     p.read()
     return {"samples": list(p.samples), "names": list(p.names), "data": np.asarray(p.data).tolist(), "want": sorted(want) if want else None}
@@ -301,12 +336,12 @@ CHECK = Check(
             setup=setup,
             teardown=teardown,
             nontrivial=lambda c, o: C.jdump(c),
-            describe=lambda c, o: ["pgen" if c["pgen"] else "vcf", "id-subset" if c["ids"] else "all-ids", "sample-subset" if c["samples"] else "all-samples", "cc" if c["K"] else "quant"],
-            rule="simulate_pt end to end on written VCF / PGEN + .snplist files with heritability 1 (zero noise, so the output must equal the genetic component exactly and liabilities tie), effects listed in an order different from the genotype file, --id and --sample subsets, prevalence 0.3 / 0.5, 1-3 replications; output read back with Phenotypes.read",
+            describe=lambda c, o: ["pgen" if c["pgen"] else "vcf", "id-subset" if c["ids"] else "all-ids", "sample-subset" if c["samples"] else "all-samples", "cc" if c["K"] else "quant", "route=" + c.get("route", "api"), "noise-zero-by=" + ("heritability-1" if c.get("h2mode", "one") == "one" else "default-noise-with-sum-beta2>=1"), "normalize" if c["normalize"] else "no-normalize"],
+            rule="simulate_pt – through the Python entry point or through `haptools simphenotype` (click CliRunner) – end to end on written VCF / PGEN + .snplist files, noise-free either by heritability 1 or by giving neither heritability nor environment with sum beta^2 >= 1 (zero noise, so the output must equal the genetic component exactly and liabilities tie), effects listed in an order different from the genotype file, --id and --sample subsets, prevalence 0.3 / 0.5, 1-3 replications; output read back with Phenotypes.read",
         ),
     ],
     trusted=["IEEE arithmetic of numpy (sums, sqrt, division) within 1e-9 of the exact value on these small inputs", "np.argpartition meets its contract", "numpy's Generator.normal scales a standard-normal stream by `scale` (quality of the stream is not examined)"],
     assumptions=["genotypes are complete (simulate_pt enforces check_missing)"],
     partial="floating-point evaluation (K*n, sqrt, normalisation) and the distribution of the PRNG are outside the model",
-    anchors=[("haptools/sim_phenotype.py", ["PhenoSimulator.run", "PhenoSimulator.normalize_gts", "PhenoSimulator.__init__", "PhenoSimulator.write", "simulate_pt"])],
+    anchors=[("haptools/__main__.py", ["simphenotype"]), ("haptools/sim_phenotype.py", ["PhenoSimulator.run", "PhenoSimulator.normalize_gts", "PhenoSimulator.__init__", "PhenoSimulator.write", "simulate_pt"])],
 )
